@@ -60,7 +60,7 @@ func SortedListBySortDescriptors[T any](sortDescriptors []SortDescriptor[T], inp
 // SortBySortDescriptors Sort items by sortDescriptors
 func SortBySortDescriptors[T any](sortDescriptors []SortDescriptor[T], input []T) {
 	Sort(func(item1 T, item2 T) bool {
-		return _compareBySortDescriptors(item1, item2, sortDescriptors, 0) >= 0
+		return _compareBySortDescriptors(item1, item2, sortDescriptors, 0) < 0
 	}, input)
 }
 
@@ -71,9 +71,9 @@ func _compareBySortDescriptors[T any](item1 T, item2 T, sortDescriptors []SortDe
 	result := 0
 	if key1 != nil && key2 != nil {
 		if descriptor.IsAscending() {
-			key1.CompareTo(key2)
+			result = key1.CompareTo(key2)
 		} else {
-			key2.CompareTo(key1)
+			result = key2.CompareTo(key1)
 		}
 	}
 	if key1 != nil && key2 == nil {
